@@ -5,7 +5,7 @@ CONSTANTS
  NV = 1
  Cmds = {1, 2, 3}
  RepostAppends = TRUE
- Defect = "none"
+ Defect = "noReqSig"
  Honest = {1, 2}
  Args <- ArgsCore
  ByzReqs <- Byz3
@@ -20,7 +20,6 @@ CONSTANTS
  MaxChain = 0
  InitSt <- IActive
  Policy = "free"
-INVARIANTS Safety Robust
-PROPERTIES MCDeleteOnlyOwn MCRefusedNoEffect
+INVARIANTS StoreAuthentic
 VIEW View
 CHECK_DEADLOCK FALSE
